@@ -4,6 +4,13 @@ import (
 	sdkmath "cosmossdk.io/math"
 	"encoding/binary"
 	"fmt"
+	clienttx "github.com/cosmos/cosmos-sdk/client/tx"
+	codectypes "github.com/cosmos/cosmos-sdk/codec/types"
+	"github.com/cosmos/cosmos-sdk/types/tx/signing"
+	authsigning "github.com/cosmos/cosmos-sdk/x/auth/signing"
+	authtx "github.com/cosmos/cosmos-sdk/x/auth/tx"
+	banktypes "github.com/cosmos/cosmos-sdk/x/bank/types"
+	haqqtypes "github.com/haqq-network/haqq/types"
 	"math/big"
 	"math/rand"
 	"strings"
@@ -74,6 +81,11 @@ func c07Gen(r *rand.Rand, tier string) []Case {
 		"vfee 2 21000 0 18446744073709551615 18446744073709551615 1000000000", "vfee 2 21000 0 18446744073709551000 18446744073709551615 875000000",
 		"efloor 1000000000000000000 2 21000 0 18446744073709551615 18446744073709551615 1000000000",
 		"efloor 20000000000000000000000000000000000000 2 21000 0 18446744073709551615 18446744073709551615 1000000000"})
+	// fixed case: Cosmos transactions charged for real — plain, and with the dynamic-fee option (tip 0 and tip large),
+	// with the fee market in force and switched off, the declared fee exactly at the floor
+	out = append(out, Case{"cpay 1000000000000000000000000000 200000 200000000000000 # ext=0", "cpay 1000000000000000000000000000 200000 200000000000000 # ext=1 tip=0",
+		"cpay 1000000000000000000000000000 200000 200000000000000 # ext=1 tip=0 market=nobasefee", "cpay 1000000000000000000000000000 200000 200000000000000 # ext=1 tip=1000000000 market=nobasefee",
+		"cpay 2000000000000000000000000000 200000 400000000000000 # ext=1 tip=5"})
 	for i := 0; i < n; i++ {
 		c := Case{"deploy"}
 		mults := []string{"0", "500000000000000000", "1000000000000000000", fmt.Sprint(r.Int63n(1_000_000_000_000_000_000))}
@@ -89,6 +101,24 @@ func c07Gen(r *rand.Rand, tier string) []Case {
 				mk = " market=notyet"
 			}
 			c = append(c, fmt.Sprintf("gas ? ? %s ? # kind=%s pricing=%s limit=%d%s", pick(r, mults), kind, pick(r, []string{"legacy", "dynamic", "dynamic-capped", "legacy", "dynamic", "dynamic-capped", "dynamic-word"}), limit, mk))
+		}
+		// Cosmos transactions charged for real: declared fee around the floor, with and without the dynamic-fee option
+		for j := 0; j < 3; j++ {
+			mgp := pick(r, []int64{1_000_000_000, 2_000_000_000, 500_000_000, 0})
+			gas := pick(r, []int64{200_000, 150_000, 300_000})
+			floor := mgp * gas
+			fee := floor + pick(r, []int64{0, 0, 1, -1, 1000, int64(r.Intn(1_000_000_000))})
+			if fee < 0 {
+				fee = 0
+			}
+			ann := "ext=0"
+			if r.Intn(3) > 0 {
+				ann = fmt.Sprintf("ext=1 tip=%d", pick(r, []int64{0, 1, 1_000_000_000, 5_000_000_000, int64(r.Intn(2_000_000_000))}))
+			}
+			if r.Intn(3) == 0 {
+				ann += " market=nobasefee"
+			}
+			c = append(c, fmt.Sprintf("cpay %d000000000000000000 %d %d # %s", mgp, gas, fee, ann))
 		}
 		// decorator-level boundary tuples
 		for j := 0; j < 12; j++ {
@@ -424,6 +454,90 @@ func c07Exec(c Case) (outs []string, fails []Failure, tags []string) {
 				need := new(big.Int).Mul(mustBig(f[1]), new(big.Int).SetUint64(gas))
 				if err == nil && new(big.Int).Mul(mustBig(f[3]), e18).Cmp(need) < 0 {
 					fl("C07:cosmos-floor", fmt.Sprintf("fee %s accepted below minGasPrice×gas = %s/1e18", f[3], need))
+				}
+			case "cpay":
+				// a real Cosmos transaction (bank send), signed in direct mode, optionally carrying the dynamic-fee extension
+				// option with a given tip; delivered; what the sender actually paid is measured.
+				//   cpay <minGPraw> <gas> <declared fee> # ext=0|1 tip=<n> market=on|nobasefee
+				// The floor is about what is charged, not what is declared.
+				out = "skip"
+				kv := vmKV(f)
+				ctx := nw.GetContext()
+				p0 := app.FeeMarketKeeper.GetParams(ctx)
+				p := p0
+				p.MinGasPrice = sdk.NewDecFromBigIntWithPrec(mustBig(f[1]), 18)
+				if kv["market"] == "nobasefee" {
+					p.NoBaseFee = true
+				}
+				_ = app.FeeMarketKeeper.SetParams(ctx, p)
+				defer func() { _ = app.FeeMarketKeeper.SetParams(nw.GetContext(), p0) }()
+				var gas uint64
+				fmt.Sscan(f[2], &gas)
+				key := kr.GetKey(1 + i%3)
+				txCfg := app.GetTxConfig()
+				b := txCfg.NewTxBuilder()
+				_ = b.SetMsgs(banktypes.NewMsgSend(key.AccAddr, kr.GetKey(4).AccAddr, sdk.NewCoins(sdk.NewCoin(nw.GetDenom(), sdkmath.NewInt(3)))))
+				b.SetGasLimit(gas)
+				fee := sdk.NewCoins()
+				if a := mustBig(f[3]); a.Sign() > 0 {
+					fee = sdk.NewCoins(sdk.NewCoin(nw.GetDenom(), sdkmath.NewIntFromBigInt(a)))
+				}
+				b.SetFeeAmount(fee)
+				if kv["ext"] == "1" {
+					opt, e := codectypes.NewAnyWithValue(&haqqtypes.ExtensionOptionDynamicFeeTx{MaxPriorityPrice: sdkmath.NewIntFromBigInt(mustBig(kv["tip"]))})
+					if e != nil {
+						panic(e)
+					}
+					b.(authtx.ExtensionOptionsTxBuilder).SetExtensionOptions(opt)
+					tags = append(tags, "cosmos-tx-with-dynamic-fee-option")
+				}
+				acc := app.AccountKeeper.GetAccount(ctx, key.AccAddr)
+				seq := acc.GetSequence()
+				_ = b.SetSignatures(signing.SignatureV2{PubKey: key.Priv.PubKey(), Data: &signing.SingleSignatureData{SignMode: signing.SignMode_SIGN_MODE_DIRECT}, Sequence: seq})
+				sig, e := clienttx.SignWithPrivKey(signing.SignMode_SIGN_MODE_DIRECT, authsigning.SignerData{ChainID: ctx.ChainID(), AccountNumber: acc.GetAccountNumber(), Sequence: seq}, b, key.Priv, txCfg, seq)
+				if e != nil {
+					panic(e)
+				}
+				_ = b.SetSignatures(sig)
+				bz, e := txCfg.TxEncoder()(b.GetTx())
+				if e != nil {
+					panic(e)
+				}
+				bal := func() *big.Int {
+					return app.BankKeeper.GetBalance(nw.GetContext(), key.AccAddr, nw.GetDenom()).Amount.BigInt()
+				}
+				b0 := bal()
+				// the op line for the model: cpay <minGPraw> <gas> <fee> <base fee the checker sees | nil> <tip | ->
+				evmP := app.EvmKeeper.GetParams(ctx)
+				baseS := "nil"
+				if bf := app.EvmKeeper.GetBaseFee(ctx, evmP.ChainConfig.EthereumConfig(app.EvmKeeper.ChainID())); bf != nil {
+					baseS = bf.String()
+				}
+				tipS := "-"
+				if kv["ext"] == "1" {
+					tipS = kv["tip"]
+				}
+				var ann []string
+				for j, t := range f {
+					if t == "#" {
+						ann = f[j:]
+						break
+					}
+				}
+				c[i] = strings.Join(append([]string{"cpay", f[1], f[2], f[3], baseS, tipS}, ann...), " ")
+				res := app.BaseApp.DeliverTx(abci.RequestDeliverTx{Tx: bz})
+				paid := new(big.Int).Sub(b0, bal())
+				out = "accept"
+				if res.Code != 0 {
+					out = "reject"
+					tags = append(tags, "cosmos-tx-refused")
+					return
+				}
+				paid.Sub(paid, big.NewInt(3)) // the amount sent
+				tags = append(tags, "cosmos-tx-executed")
+				need := new(big.Int).Mul(mustBig(f[1]), new(big.Int).SetUint64(gas))
+				if new(big.Int).Mul(paid, e18).Cmp(need) < 0 {
+					fl("C07:cosmos-floor:charged-below-the-floor", fmt.Sprintf("a Cosmos transaction (gas %d, declared fee %s, dynamic-fee option %s tip %s) was executed and its sender paid %s, below minGasPrice × gas = %s/1e18", gas, f[3], kv["ext"], kv["tip"], paid, need))
 				}
 			case "efloor2":
 				// efloor2 minGPraw base  typ gas gp tip cap  typ gas gp tip cap — one transaction, two Ethereum messages
